@@ -15,6 +15,7 @@ PROP = {
         {"name": "qsort_large", "quick": 8000, "thorough": 150000, "maxlen": 40},
         {"name": "bsearch_large", "quick": 20000, "thorough": 300000, "maxlen": 40},
     ],
+    "uchar": ["strto"],
     "fuzz": [{"name": "strto", "secs": 60, "maxlen": 96}, {"name": "qsort", "secs": 30, "maxlen": 200}],
 }
 
